@@ -736,6 +736,102 @@ func scenarioOn(name, doc, mode string, cfgs []*config, seconds, dev int, agents
 		}}
 }
 
+// redeclared: the task template of a running environment's binder is changed in the repository (its class-level
+// `bind` now names another transport) and the core re-reads it - it refreshes the classes a deployment needs, here
+// for a second environment of the same workflow. When the first environment is then RESET and CONFIGUREd again,
+// whatever the core settles on, both ends of the channel must be told one endpoint: the address the inbound task
+// is told to bind, with one transport (the second environment, deployed from the new template, likewise).
+func redeclaredScenario(name string, seconds int) *vrt.Scenario {
+	type variant struct{ pl, addressing, x, y, form string }
+	var vs []variant
+	for _, pl := range []string{"AA", "AB"} {
+		for _, ad := range []string{"", "ipc"} {
+			for _, xy := range [][2]string{{"zeromq", "shmem"}, {"shmem", "zeromq"}, {"", "shmem"}, {"shmem", ""}, {"shmem", "shmem"}} {
+				for _, form := range []string{"path", "alias"} {
+					vs = append(vs, variant{pl, ad, xy[0], xy[1], form})
+				}
+			}
+		}
+	}
+	reached := false
+	return &vrt.Scenario{Name: name, Prop: "C13", Doc: fmt.Sprintf("the class-level bind of a deployed binder is redeclared with another transport and re-read by the core (second environment of the same workflow); RESET + CONFIGURE of the first environment: both ends are told one endpoint (%d variants)", len(vs)),
+		Setup: coresim.ResetStore,
+		Cfg:   vrt.Config{Preempt: coresim.InterComponent, FreeSwitchCost: true, Horizon: 30 * time.Minute},
+		Quick: vrt.Bounds{Dev: 0, Seconds: seconds}, Thorough: vrt.Bounds{Dev: 0, Seconds: seconds},
+		DeadlockClause: "configuration-request-hangs", PanicClause: "panic",
+		NonTrivial: func(x *vrt.Exec) bool { return reached },
+		Body: func() {
+			reached = false
+			k := vrt.ChooseFree(len(vs), "variant")
+			v := vs[k]
+			mk := func(tr string) *config {
+				c := &config{fam: "rd", idx: k, tasks: tasksFor(v.pl, "df")}
+				c.decls = []decl{{bind: true, level: "class", owner: 0, name: "data", addressing: v.addressing, transport: tr, global: "g1"}}
+				c.decls = append(c.decls, connectTo(c, "in", "role", 1, v.form, 0, "data", "g1", ""))
+				return c
+			}
+			c1, c2 := mk(v.x), mk(v.y)
+			coresim.WriteWorkflow(c1.spec())
+			defer coresim.RemoveWorkflow(c2.spec())
+			m := coresim.NewMaster(agents()...)
+			w := coresim.NewWorld(m)
+			id1, st, err := w.Create(c1.wf(), nil)
+			vrt.Quiesce("after-create-1")
+			if err != nil || st != "CONFIGURED" {
+				vrt.Logf("redeclared %d %+v -> not judged: first environment %s (%v)", k, v, st, err)
+				return
+			}
+			coresim.WriteWorkflow(c2.spec()) // same workflow and class names, the binder's template now says v.y
+			id2, st, err := w.Create(c2.wf(), nil)
+			vrt.Quiesce("after-create-2")
+			if err != nil || st != "CONFIGURED" {
+				vrt.Logf("redeclared %d %+v -> not judged: second environment %s (%v)", k, v, st, err)
+				return
+			}
+			ends := func(what, id string) {
+				obs := observe(c2, m, id)
+				in, out := obs[0].args, obs[1].args
+				bound, okI := in["chans.data.0.address"]
+				addr, okO := out["chans.in.0.address"]
+				if !okI || !okO {
+					vrt.Fail("redeclared:channel-not-told:"+what, "variant %+v: inbound told=%v outbound told=%v (inbound args %v, outbound args %v)", v, okI, okO, in, out)
+					return
+				}
+				want := bound
+				if p, isTcp := tcpPort(bound); isTcp {
+					want = fmt.Sprintf("tcp://%s:%d", obs[0].host, p)
+					if !obs[0].ports[p] {
+						vrt.Fail("redeclared:inbound-port-not-in-accept:"+what, "variant %+v: inbound is told to bind port %d, the task holds %v", v, p, keys(obs[0].ports))
+					}
+				}
+				if addr != want {
+					vrt.Fail("redeclared:outbound-address:"+what, "variant %+v: inbound on %s is told to bind %s, outbound is told %s (expected %s)", v, obs[0].host, bound, addr, want)
+				}
+				ti, to := in["chans.data.0.transport"], out["chans.in.0.transport"]
+				if ti != to {
+					vrt.Fail("redeclared:ends-told-different-transports:"+what, "variant %+v (template said %q at deployment, says %q now): the inbound task is told transport %q, the outbound task connecting to it %q", v, v.x, v.y, ti, to)
+				}
+				vrt.Logf("redeclared %d %+v %s -> inbound %s/%s outbound %s/%s", k, v, what, bound, ti, addr, to)
+			}
+			ends("second-environment", id2)
+			for _, t := range m.Tasks {
+				t.Args = nil // only what the second CONFIGURE of the first environment tells is judged below
+			}
+			if st, err := w.Control(id1, pb.ControlEnvironmentRequest_RESET); err != nil || st != "DEPLOYED" {
+				vrt.Fail("setup-step-failed:RESET", "state=%s err=%v", st, err)
+				return
+			}
+			st, err = w.Control(id1, pb.ControlEnvironmentRequest_CONFIGURE)
+			vrt.Quiesce("after-reconfigure")
+			if err != nil || st != "CONFIGURED" {
+				vrt.Logf("redeclared %d %+v -> not judged: second CONFIGURE of the first environment %s (%v)", k, v, st, err)
+				return
+			}
+			reached = true
+			ends("first-environment-again", id1)
+		}}
+}
+
 // ---------------------------------------------------------------- families of configurations
 
 type grid struct {
@@ -1151,6 +1247,7 @@ func main() {
 		scenarioOn("fqdn", "agents known to Mesos by a host name that differs from the machine_id the roles select them with: the outbound address carries the agent's host name", "create",
 			append(pairGrid("q", S("AA AB"), S("role class"), []string{omitted, "ipc"}, []string{"shmem"}, []string{omitted, "g1"}, S("role root"), []string{omitted}, S("path tpath alias tcpx wrongchan"), S("df")).cfgs,
 				iterGrid("j", S("role"), []string{omitted}).cfgs...), 100, 0, agentsFQDN),
+		redeclaredScenario("redeclared", 100),
 		// thorough tier
 		scenario("pair-full", "binder + connector, full grid", "create", pairT.cfgs, 900),
 		scenario("fan-full", "two binders + connector, full grid", "create", fanT.cfgs, 600),
